@@ -265,6 +265,61 @@ where
     Ok(())
 }
 
+/// The private `add_noise` methods with a caller-supplied random number generator, re-exported for
+/// the external checker (feature `verif-hooks`). Nothing here is part of the library's API.
+#[cfg(feature = "verif-hooks")]
+pub mod verif {
+    use super::*;
+
+    /// `SumVec::add_noise`
+    pub fn sumvec_add_noise<F, S, R>(
+        typ: &SumVec<F, S>,
+        dp_strategy: &PureDpDiscreteLaplace,
+        agg_result: &mut [F],
+        rng: &mut R,
+    ) -> Result<(), FlpError>
+    where
+        F: NttFriendlyFieldElement,
+        BigInt: From<F::Integer>,
+        F::Integer: TryFrom<BigInt, Error = TryFromBigIntError<BigInt>>,
+        R: Rng,
+    {
+        typ.add_noise(dp_strategy, agg_result, rng)
+    }
+
+    /// `Histogram::add_noise`
+    pub fn histogram_add_noise<F, S, R>(
+        typ: &Histogram<F, S>,
+        dp_strategy: &PureDpDiscreteLaplace,
+        agg_result: &mut [F],
+        rng: &mut R,
+    ) -> Result<(), FlpError>
+    where
+        F: NttFriendlyFieldElement,
+        BigInt: From<F::Integer>,
+        F::Integer: TryFrom<BigInt, Error = TryFromBigIntError<BigInt>>,
+        R: Rng,
+    {
+        typ.add_noise(dp_strategy, agg_result, rng)
+    }
+
+    /// `L1BoundSum::add_noise`
+    pub fn l1boundsum_add_noise<F, S, R>(
+        typ: &L1BoundSum<F, S>,
+        dp_strategy: &PureDpDiscreteLaplace,
+        agg_result: &mut [F],
+        rng: &mut R,
+    ) -> Result<(), FlpError>
+    where
+        F: NttFriendlyFieldElement,
+        BigInt: From<F::Integer>,
+        F::Integer: TryFrom<BigInt, Error = TryFromBigIntError<BigInt>>,
+        R: Rng,
+    {
+        typ.add_noise(dp_strategy, agg_result, rng)
+    }
+}
+
 #[cfg(test)]
 mod tests {
     use crate::{
